@@ -31,6 +31,33 @@ def histories(num, seed, sw, toggles=1):
         out.append(dict(id=len(out), hist=h))
     return r, out
 
+PAL = {1: ("cmd", "A", 0, 3, "u1", "k1"), 2: ("shell", "-", 1, 3, "u1", "k1"), 3: ("cmd", "A", 0, 1, "u1", "k1"), 4: ("cmd", "AB", 0, 3, "u1", "k1"),
+       7: ("localpf", "-", 0, 2, "u1", "k1"), 8: ("shell", "-", 0, 3, "u1", "k1"), 9: ("remotepf", "-", 1, 3, "u1", "k1")}
+
+def directed():
+    """Histories written down directly (same format, judged by the same predicates; no model expectation attached):
+    an expired grant stored in front of / behind live ones when a further grant is added, every kind then requested
+    twice; and forwarding requests whose control tube was opened while the grant was valid but which are made after
+    it expired (or before it starts)."""
+    G = lambda i: dict(id=i, type=PAL[i][0], cmd=PAL[i][1], start=PAL[i][2], exp=PAL[i][3], user=PAL[i][4], key=PAL[i][5])
+    add = lambda i: dict(op="add", g=G(i)); tick = lambda n: dict(op="tick", now=n)
+    con = lambda sid: dict(op="connect", user="u1", key="k1", sid=sid)
+    req = lambda sid, i: dict(op="request", sid=sid, kind=dict(type=PAL[i][0], cmd=PAL[i][1]))
+    out = []
+    for live in (1, 4, 8, 7):
+        for new in (1, 4, 8, 7, 2):
+            if new == live:
+                continue
+            for order in ((3, live), (live, 3)):
+                for t in (1, 2):
+                    h = [add(order[0]), add(order[1])] + [tick(k) for k in range(1, t + 1)] + [add(new), con(1)]
+                    h += [req(1, live), req(1, live), req(1, new), req(1, new), req(1, 3)]
+                    out.append(h)
+    for g, t_open, t_req in ((7, 0, 2), (7, 1, 2), (7, 1, 3), (9, 1, 3), (9, 2, 3), (9, 0, 1), (7, 0, 1)):
+        h = [add(g)] + [tick(k) for k in range(1, t_open + 1)] + [con(1), dict(op="pfopen", sid=1)] + [tick(k) for k in range(t_open + 1, t_req + 1)] + [req(1, g), req(1, g)]
+        out.append(h)
+    return out
+
 def kind_s(k):
     return k["type"] + ("(" + k["cmd"] + ")" if k["type"] == "cmd" else "")
 
@@ -45,6 +72,8 @@ def desc(h):
             parts.append("grants %s" % ("on" if o["enabled"] else "OFF"))
         elif o["op"] == "connect":
             parts.append("connect s%d=%s/%s" % (o["sid"], o["user"], o["key"]))
+        elif o["op"] == "pfopen":
+            parts.append("s%d opens a forwarding control tube" % o["sid"])
         else:
             parts.append("s%d:%s" % (o["sid"], kind_s(o["kind"])))
     return " ; ".join(parts)
@@ -117,12 +146,16 @@ def run(v, tier, replay):
     v.add_tlc("MC_HopGrants simulation (history generation, switches as the code)", r)
     if len(hs) < 300:
         raise lib.Inconclusive("too few histories: %d\n%s" % (len(hs), r.out[-800:]))
+    ndir = 0
+    for h in directed():
+        hs.append(dict(id=len(hs), hist=h, directed=True)); ndir += 1
+    v.cov["directed_histories"] = ndir
     sd = lib.scratch("vf-c07-")
     NP = 8
     def child(i):
         inp = os.path.join(sd, "h-%d.ndjson" % i); out = os.path.join(sd, "o-%d.ndjson" % i)
         lib.write_ndjson(inp, hs[i::NP])
-        rc, so, se = lib.overlay_test("hopserver", "^TestVerifGrantsReplay$", env_extra={"VT_IN": inp, "VT_OUT": out}, timeout=1500)
+        rc, so, se = lib.overlay_test("hopserver", "^TestVerifGrantsReplay$", env_extra={"VT_IN": inp, "VT_OUT": out}, timeout=1500, only=["zz_verif_grants_test.go"])
         return i, rc, out, (so + se)[-3000:]
     unexplained = []
     with concurrent.futures.ThreadPoolExecutor(max_workers=NP) as ex:
@@ -139,6 +172,9 @@ def run(v, tier, replay):
                 for sig in judge(h, e["results"]):
                     v.violation(sig, "TLC-generated history replayed on a real HopServer and real sessions (tubes opened as a client does)", dict(history=h, observed=e))
                 diffs = []
+                if hs[e["id"]].get("directed"):
+                    v.count("traces_validated_against_impl")
+                    continue
                 for n, (o, r_) in enumerate(zip(h, e["results"])):
                     if o["op"] == "connect" and o["admitted"] != r_["admitted"]:
                         diffs.append("step %d connect: model admitted=%s code %s" % (n, o["admitted"], r_["admitted"]))
@@ -172,6 +208,8 @@ def run(v, tier, replay):
     if rc != 0 and "WARNING: DATA RACE" in (so + se):
         where = [l.strip().split(" ")[0] for l in (so + se).split("\n") if lib.REPO_MARK in l and "zz_verif" not in l][:2]
         v.violation("data race between simultaneous requests of one session on the list of unused grants (%s)" % ", ".join(w.split(lib.REPO_MARK)[-1] for w in where), "race detector, overlay driver TestVerifGrantsConcurrent", dict(tail=(so + se)[-1500:]))
+    elif (rc != 0 or not any(e.get("done") for e in evs)) and v.viol:
+        v.cov["concurrent_grant_driver"] = "not run (did not build or finish); violations were already established by the replay"
     elif rc != 0 or not any(e.get("done") for e in evs):
         raise lib.Inconclusive("concurrent-grant driver failed: rc=%s\n%s" % (rc, (so + se)[-1500:]))
     for e in evs:
